@@ -6,6 +6,7 @@
 //             compiled-grammar text, lexeme list, and the fully materialised lexer automaton of selected lexemes
 //   subsume : C10 — real check_subsume verdicts per (state, slice)
 //   replay  : feed bytes to the real Matcher over the single-byte vocabulary
+//   history : scripted call sequence (consume / mask / rollback / ff / validate) on the real Matcher
 //   maskdiff: C10 — sliced vs unsliced mask after a byte prefix, over single bytes + given extra tokens
 use std::collections::HashMap;
 use std::io::{BufRead, Write};
@@ -449,6 +450,75 @@ fn op_maskdiff(job: &Value) -> Value {
     json!({"ok": true, "diff": diff, "slices_applied": applied, "vocab": nw})
 }
 
+/// history: a scripted sequence of calls on the real Matcher over single bytes + the given extra tokens (+ one special token).
+/// steps: {"consume": tok} | {"bytes": [..]} (one single-byte token each) | {"mask": true} | {"rollback": n} | {"ff": true} | {"accepting": true}
+/// Every step reports what the engine answered; masks are reported as the list of allowed token ids.
+fn op_history(job: &Value) -> Value {
+    let mut words: Vec<Vec<u8>> = (0..=255u8).map(|b| vec![b]).collect();
+    for w in job["tokens"].as_array().cloned().unwrap_or_default() {
+        words.push(w.as_array().unwrap().iter().map(|x| x.as_u64().unwrap() as u8).collect());
+    }
+    words.push(b"\xFF<|end|>".to_vec());
+    let nw = words.len() as u32;
+    let trie = TokTrie::from(&TokRxInfo::new(nw, nw - 1), &words);
+    let env: TokEnv = Arc::new(ApproximateTokEnv::new(trie));
+    let slices: Vec<String> = match job["slices"].as_str() {
+        Some("general") => SlicedBiasComputer::general_slices(),
+        Some("json") => SlicedBiasComputer::json_slices(),
+        _ => vec![],
+    };
+    let tl = match top_level(job) {
+        Ok(t) => t,
+        Err(e) => return json!({"ok": false, "error": e}),
+    };
+    let mut factory = match ParserFactory::new(&env, InferenceCapabilities::default(), &slices) {
+        Ok(f) => f,
+        Err(e) => return json!({"ok": false, "error": format!("{e}")}),
+    };
+    factory.quiet();
+    let parser = factory.create_parser_from_init_ext(GrammarInit::Serialized(tl), Logger::new(0, 0), InferenceCapabilities::default(), factory.limits().clone());
+    if let Err(e) = &parser {
+        return json!({"ok": false, "error": format!("{e}"), "stage": "create_parser"});
+    }
+    let mut m = Matcher::new(parser);
+    let mut out = vec![];
+    let mask_list = |mask: &llguidance::toktrie::SimpleVob| -> Vec<u32> { (0..nw).filter(|t| mask.is_allowed(*t)).collect() };
+    for st in job["steps"].as_array().cloned().unwrap_or_default() {
+        if let Some(t) = st.get("consume").and_then(|x| x.as_u64()) {
+            let r = m.consume_token(t as u32);
+            out.push(json!({"consume": t, "ok": r.is_ok(), "err": r.err().map(|e| format!("{e}").chars().take(160).collect::<String>())}));
+        } else if let Some(bs) = st.get("bytes").and_then(|x| x.as_array()) {
+            let mut n = 0;
+            for b in bs {
+                if m.consume_token(b.as_u64().unwrap() as u32).is_err() {
+                    break;
+                }
+                n += 1;
+            }
+            out.push(json!({"bytes": bs.len(), "consumed": n}));
+        } else if st.get("mask").is_some() {
+            match m.compute_mask() {
+                Ok(mask) => out.push(json!({"mask": mask_list(&mask)})),
+                Err(e) => out.push(json!({"mask_err": format!("{e}").chars().take(200).collect::<String>()})),
+            }
+        } else if let Some(n) = st.get("rollback").and_then(|x| x.as_u64()) {
+            let r = m.rollback(n as usize);
+            out.push(json!({"rollback": n, "ok": r.is_ok(), "err": r.err().map(|e| format!("{e}").chars().take(160).collect::<String>())}));
+        } else if st.get("ff").is_some() {
+            out.push(json!({"ff": m.compute_ff_bytes()}));
+        } else if st.get("accepting").is_some() {
+            out.push(json!({"accepting": m.is_accepting().unwrap_or(false), "stopped": m.is_stopped()}));
+        } else if let Some(ts) = st.get("validate").and_then(|x| x.as_array()) {
+            let toks: Vec<u32> = ts.iter().map(|x| x.as_u64().unwrap() as u32).collect();
+            out.push(json!({"validate": m.validate_tokens(&toks).map(|n| n as i64).unwrap_or(-1)}));
+        } else if st.get("invalidate").is_some() {
+            m.invalidate_bias_cache();
+            out.push(json!({"invalidate": true}));
+        }
+    }
+    json!({"ok": true, "steps": out, "vocab": nw})
+}
+
 fn op_replay(job: &Value) -> Value {
     let tl = match top_level(job) {
         Ok(t) => t,
@@ -534,6 +604,7 @@ fn main() {
             "subsume" => op_subsume(&job),
             "maskdiff" => op_maskdiff(&job),
             "replay" => op_replay(&job),
+            "history" => op_history(&job),
             _ => json!({"ok": false, "error": "unknown op"}),
         }));
         let mut res = match r {
